@@ -133,8 +133,11 @@ def shown_runs(chk, exe):
     def hdr(out, pat):
         m = re.search(pat + r" ([0-9a-f]{64}):\s+CTransaction\(hash=([0-9a-f]{10}), ver=(-?\d+), vin.size=(\d+), vout.size=(\d+), nLockTime=(\d+)\)", out)
         if not m: return {"id": "", "pfx": "", "ver": "", "nin": -1, "nout": -1, "lock": ""}
-        return {"id": m.group(1), "pfx": m.group(2), "ver": int(m.group(3)).to_bytes(4, "little", signed=True).hex(), "nin": int(m.group(4)), "nout": int(m.group(5)),
-                "lock": int(m.group(6)).to_bytes(4, "little").hex()}
+        def le(text, signed):
+            v = int(text)
+            ok = (-2 ** 31 <= v < 2 ** 31) if signed else (0 <= v < 2 ** 32)
+            return v.to_bytes(4, "little", signed=signed).hex() if ok else "not a 32-bit value: " + text
+        return {"id": m.group(1), "pfx": m.group(2), "ver": le(m.group(3), True), "nin": int(m.group(4)), "nout": int(m.group(5)), "lock": le(m.group(6), False)}
     k = 0
     for typ in ("p2pkh", "p2wpkh", "p2wsh", "p2tr-key", "p2sh-p2wpkh"):
         for fundwit in (False, True):
